@@ -57,7 +57,7 @@ def tie_spec(seed: int) -> Dict[str, Any]:
                 p["on_shift"] = True
     # (b) stations at exactly equal grid distance from a low-charge vehicle, in different search cells
     if spec["network"]["type"] == "euclidean":
-        for j, v in enumerate(spec["vehicles"][: rnd.randint(1, 3)]):
+        for j, v in enumerate(spec["vehicles"][: rnd.randint(2, 3)]):
             # the vehicle stands at the centre of its search cell; the stations lie ~1.5 km away in the neighbouring
             # search cells, so the first ring that finds any of them finds all of them, at equal distance
             c7 = h3.h3_to_parent(h3.geo_to_h3(v["lat"], v["lon"], 15), 7)
@@ -70,7 +70,8 @@ def tie_spec(seed: int) -> Dict[str, Any]:
             v["mech"] = "leaf_50"
             v.pop("schedule", None)
             v.pop("home_base", None)
-            d = rnd.choice([1600, 1750, 1900])
+            # every second tie vehicle gets its stations ~300 m away instead: equal distance *inside* one search cell
+            d = rnd.choice([1600, 1750, 1900]) if j % 2 == 0 else rnd.choice([250, 320, 400])
             ring = sorted(h3.hex_ring(cell, d))
             nq = rnd.randint(3, 5)
             for q in range(nq):
@@ -188,6 +189,13 @@ def build_cases(tier, seed):
     for i in range(n_scen):
         s = seed * 1000 + i
         scen.append((f"tie{s}", tie_spec(s), steps))
+    # queue contention: several vehicles join one queue in the same step (equal enqueue time), then a plug frees
+    from hivemon.checks.c18 import queue_spec
+
+    for i in range(max(2, n_scen // 4)):
+        qs, qsteps = queue_spec(seed * 1000 + 500 + i)
+        qs["global"]["log_events"] = False
+        scen.append((f"queue{seed * 1000 + 500 + i}", qs, min(qsteps, steps)))
     scen.append(("denver_demo_fleets", shipped_spec("denver_downtown/denver_demo_fleets.yaml"), 260 if tier == "quick" else 700))
     if tier == "thorough":
         scen.append(("denver_demo", shipped_spec("denver_downtown/denver_demo.yaml"), 700))
@@ -197,6 +205,8 @@ def build_cases(tier, seed):
         # every third generated scenario adds the hostile generator (a pure function of seed, sim time and vehicle id,
         # SHA-256 based): all activities and rejection paths get exercised for order dependence as well
         ctrl = {"stack": ["Dispatcher", "ChargingFleetManager", {"hostile": {"p": 0.2, "seed": 7}}]} if name.startswith("tie") and j % 3 == 2 else None
+        if name.startswith("queue"):
+            ctrl = {"stack": ["ChargingFleetManager", {"benign_queue": {"p_leave": 0.05, "p_abandon": 0.02, "seed": 3}}]}
         for hs in hss + [hss[0]]:  # the first seed is repeated: plain process-to-process repeatability
             cases.append({"engine": "c01_exec", "id": f"C01-{name}-hs{hs}-{len(cases)}", "scenario": name, "spec": spec, "steps": st, "hashseed": hs, "controller": ctrl})
     return cases
